@@ -286,6 +286,30 @@ theorem findAuto_step_ne (T : STables) (s : Session) (op : SOp) (j : Name) (h : 
   | register i m => rfl
   | registerFailed i m => rfl
 
+/-- a module created some time after its section was loaded: the section shows what it showed when it was loaded, and the
+session run amounts to the heap operations before, one `inst` with those items, and the heap operations after -/
+theorem create_after_load (T : STables) (pre0 mid post : List SOp) (sec n c : Name) (es : List (Name × EntrySpec))
+    (gs : List (PVal × List Name)) :
+    readSection (srun T {} (pre0 ++ .load sec es gs :: mid)) sec =
+      describeCfg (srun T {} (pre0 ++ [.load sec es gs])) sec ∧
+    worldOps T {} ((pre0 ++ .load sec es gs :: mid) ++ .create n c sec :: post) =
+      worldOps T {} (pre0 ++ .load sec es gs :: mid) ++
+        Op.inst n c (readSection (srun T {} (pre0 ++ .load sec es gs :: mid)) sec) ::
+        worldOps T (srun T {} ((pre0 ++ .load sec es gs :: mid) ++ [.create n c sec])) post := by
+  have hsec : (srun T {} (pre0 ++ [.load sec es gs])).findSection sec ≠ none := by
+    rw [srun_append]
+    simp only [srun, List.foldl_cons, List.foldl_nil, sstep, loadSection, Session.findSection, List.find?_append]
+    cases (List.foldl (sstep T) {} pre0).sections.find? (fun c => c.name == sec) with
+    | some x => simp
+    | none => simp
+  constructor
+  · have e : pre0 ++ .load sec es gs :: mid = (pre0 ++ [.load sec es gs]) ++ mid := by simp
+    rw [e, srun_append]
+    exact readSection_run T mid _ (cfgBounded_run T _ {} cfgBounded_empty) sec hsec
+  · rw [worldOps_append]
+    simp only [worldOps, SOp.worldOp, Option.toList_some, List.singleton_append, srun, List.foldl_cons,
+      List.foldl_nil, List.foldl_append]
+
 /-! ## input tables -/
 
 theorem aget?_aput_ne {α : Type} (l : List (Name × α)) (k k' : Name) (v : α) (h : k' ≠ k) :
